@@ -239,4 +239,9 @@ def run(ctx):
         for name, bs in sorted(groups.items()):
             run.finding(Finding(R4, fz, "effect before the reply is verified: %s" % name, site=c.site_of(f, bs[0]),
                                 detail="reachable without the Ok-edge of complete_tx; effects %s" % sorted(set().union(*[eb[b2] for b2 in bs]))))
+    R5 = "C07.R5"
+    run.rule(R5, "a receive adds an entry of its own: the log id comes from the counter of the destination account, under which the entry is saved", floor=1)
+    from .shared import log_id_account
+    if not log_id_account(ctx, R5, only={c.LW + "internal::selection::build_recipient_output"}):
+        run.error("C07.R5: build_recipient_output no longer draws a log id and saves an entry (anchor missing)")
     run.not_decided += ["'spendable balance never decreases' as a number", "that complete_tx's signature checks reject every forged reply (cryptographic)"]
